@@ -18,9 +18,10 @@
 from __future__ import annotations
 
 import ast
+import copy
 from typing import Any, Callable, Iterable
 
-from ..engine.normalize import inline_helpers
+from ..engine.normalize import ANCHOR_NAMES, _bind, _helper_target, _replace_node, inline_helpers
 from ..engine.report import AnalysisError
 from ..engine.resolver import ClassInfo, FuncInfo, FuncNode, Program, walk_no_nested
 from ..engine.sympath import Effect, Path, SymExec, SymUnsupported
@@ -81,8 +82,79 @@ def _strip_doc(body: list[ast.stmt]) -> list[ast.stmt]:
     return body
 
 
+class _Sub(ast.NodeTransformer):
+    def __init__(self, env: dict[str, ast.AST]) -> None:
+        self.env = env
+
+    def visit_Name(self, node: ast.Name) -> ast.AST:  # noqa: N802
+        if isinstance(node.ctx, ast.Load) and node.id in self.env:
+            return ast.copy_location(copy.deepcopy(self.env[node.id]), node)
+        return node
+
+
+def _stmts_as_expr(stmts: list[ast.stmt], env: dict[str, ast.AST]) -> ast.expr | None:
+    """The value a statement list returns, as one (conditional) expression: only `if`/`return`, plain
+    single-name assignments (substituted), assertions and docstrings are understood."""
+    if not stmts:
+        return None
+    s, rest = stmts[0], stmts[1:]
+    if isinstance(s, ast.Return):
+        return _Sub(env).visit(copy.deepcopy(s.value)) if s.value is not None else ast.Constant(None)
+    if isinstance(s, ast.Assert) or isinstance(s, ast.Pass) or (
+            isinstance(s, ast.Expr) and isinstance(s.value, ast.Constant)):
+        return _stmts_as_expr(rest, env)
+    if isinstance(s, (ast.Assign, ast.AnnAssign)):
+        tgt = s.targets[0] if isinstance(s, ast.Assign) and len(s.targets) == 1 else getattr(s, "target", None)
+        if not isinstance(tgt, ast.Name) or s.value is None:
+            return None
+        env = dict(env)
+        env[tgt.id] = _Sub(env).visit(copy.deepcopy(s.value))
+        return _stmts_as_expr(rest, env)
+    if isinstance(s, ast.If):
+        a = _stmts_as_expr(list(s.body) + rest, env)
+        b = _stmts_as_expr(list(s.orelse) + rest, env)
+        if a is None or b is None:
+            return None
+        return ast.copy_location(ast.IfExp(test=_Sub(env).visit(copy.deepcopy(s.test)), body=a, orelse=b), s)
+    return None
+
+
+def inline_value_helpers(prog: Program, fn: FuncInfo, root: FuncNode, rounds: int = 3) -> FuncNode:
+    """Calls of private, non-anchored, effect-free helpers with several `return`s are replaced (on `root`,
+    already a copy) by the conditional expression they compute — the engine's inliner only takes helpers with
+    a single trailing return."""
+    for _ in range(rounds):
+        changed = False
+        for call in [n for n in ast.walk(root) if isinstance(n, ast.Call)]:
+            h = _helper_target(prog, fn, call, {})
+            if h is None or h is root or h.name in ANCHOR_NAMES or isinstance(h, ast.AsyncFunctionDef) \
+                    or h.name == fn.name:
+                continue
+            if h.decorator_list and not all(isinstance(d, ast.Name) and d.id in ("staticmethod", "override")
+                                            for d in h.decorator_list):
+                continue
+            binds = _bind(h, call)
+            if binds is None:
+                continue
+            expr = _stmts_as_expr(_strip_doc(list(h.body)), dict(binds))
+            if expr is None:
+                continue
+            _replace_node(root, call, expr, awaited=False)
+            changed = True
+            break
+        if not changed:
+            break
+    ast.fix_missing_locations(root)
+    return root
+
+
+def spliced(prog: Program, fn: FuncInfo) -> FuncNode:
+    """`fn` with simple private helpers spliced in (engine) and value helpers turned into expressions."""
+    return inline_value_helpers(prog, fn, inline_helpers(prog, fn))
+
+
 def ordered_paths(prog: Program, fn: FuncInfo, inline: bool = True, max_paths: int = 4096) -> list[Path]:
-    node = inline_helpers(prog, fn) if inline else fn.node
+    node = spliced(prog, fn) if inline else fn.node
     se = OrderedSymExec(max_paths)
     out = []
     for p, st in se.block(Path(), list(_strip_doc(node.body))):
